@@ -43,13 +43,13 @@ def gen_case(rng, big=False, bias=None):
         h = rng.below(nh)
         r = rng.below(20)
         sig = rng.choice(sigs)
-        if r < 6: return ("start", h, sig)
-        if r < 10: return ("oneshot", h, sig)
+        if r < 6: return ("start", h, sig, rng.below(2))
+        if r < 10: return ("oneshot", h, sig, rng.below(2))
         if r < 14: return ("stop", h)
         if r < 16: return ("close", h)
         if r < 18: return ("unref", h)
         if r < 19: return ("ref", h)
-        return ("start", h, rng.choice([0, 9, sig]))
+        return ("start", h, rng.choice([0, 9, sig]), rng.below(2))
     n = rng.range(6, 40 if not big else 90)
     for _ in range(n):
         r = rng.below(20)
@@ -58,7 +58,7 @@ def gen_case(rng, big=False, bias=None):
         if r < 8:
             o = one_op(False)
             if o[0] in ("start", "oneshot"):
-                lines.append(f"{o[0]} h{o[1]} {o[2]}")
+                lines.append(f"{o[0]} h{o[1]} {o[2]} {o[3]}")
                 if o[2] in SIGS: st[o[1]] = o[2]
             elif o[0] in ("ref", "unref"):
                 lines.append(f"{o[0]} h{o[1]}")
@@ -133,8 +133,8 @@ def gen_mt_case(rng):
     st = {i: 0 for i in range(nh)}
     for _ in range(rng.range(8, 50)):
         r = rng.below(20); h = rng.below(nh); sig = rng.choice(sigs)
-        if r < 4: lines.append(f"start h{h} {sig}"); st[h] = sig
-        elif r < 8: lines.append(f"oneshot h{h} {sig}"); st[h] = sig
+        if r < 4: lines.append(f"start h{h} {sig} {rng.below(2)}"); st[h] = sig
+        elif r < 8: lines.append(f"oneshot h{h} {sig} {rng.below(2)}"); st[h] = sig
         elif r < 9: lines.append(f"stop h{h}"); st[h] = 0
         elif r < 10: lines.append(f"unref h{h}" if rng.chance(2, 3) else f"ref h{h}")
         elif r < 11: lines.append(f"close h{h}"); st[h] = 0
@@ -144,8 +144,8 @@ def gen_mt_case(rng):
             if not others: continue
             h2 = rng.choice(others)
             s1 = st[h] if st[h] and rng.chance(2, 3) else sig
-            op1 = rng.choice([f"stop h{h}", f"stop h{h}", f"start h{h} {sig}", f"oneshot h{h} {sig}", f"close h{h}"])
-            op2 = rng.choice([f"start h{h2} {s1}", f"start h{h2} {s1}", f"oneshot h{h2} {s1}", f"stop h{h2}"])
+            op1 = rng.choice([f"stop h{h}", f"stop h{h}", f"start h{h} {sig} {rng.below(2)}", f"oneshot h{h} {sig} {rng.below(2)}", f"close h{h}"])
+            op2 = rng.choice([f"start h{h2} {s1} {rng.below(2)}", f"start h{h2} {s1} 1", f"oneshot h{h2} {s1} {rng.below(2)}", f"stop h{h2}"])
             lines.append(f"race {op1} | {op2}")
             for o in (op1, op2):
                 f = o.split(); st[int(f[1][1:])] = int(f[2]) if len(f) > 2 else 0
@@ -177,7 +177,7 @@ def exhaustive_cases():
     """all programs of 5 events over one loop, one handle, one signal drawn from
     {start, oneshot, stop, raise, run} followed by raise/run/run — the scope that contains L10"""
     import itertools
-    ev = ["start h0 10", "oneshot h0 10", "stop h0", "raise 10", "run 0", "start h0 12", "oneshot h0 12"]
+    ev = ["start h0 10", "oneshot h0 10 1", "stop h0", "raise 10", "run 0", "start h0 12 1", "oneshot h0 12"]
     for p in itertools.product(ev, repeat=5):
         yield ["init 1 0"] + list(p) + ["raise 10", "run 0", "run 0"]
 
@@ -215,16 +215,17 @@ class Mon:
             w = watchers(sig)
             if not w: reset_fired[sig] = False
             elif was_reg and all(H[j]["os"] for j in w): reset_fired[sig] = False   # re-installed with RESETHAND
-        def spec_start(h, sig, os, rc_expected):
+        def spec_start(h, sig, os, cbid):
             """returns expected return code"""
             x = H[h]
             if sig == 0: return -22
-            if x["sig"] == sig: return 0               # documented: only the callback changes
+            if x["sig"] == sig:                        # documented: only the callback changes
+                x["cb"] = cbid; return 0
             spec_stop(h)
             if sig not in SIGS: return -22             # SIGKILL: handle is left stopped
             w = watchers(sig)
             if not w or (not os and all(H[j]["os"] for j in w)): reset_fired[sig] = False
-            x["sig"] = sig; x["os"] = os; x["inc"] += 1
+            x["sig"] = sig; x["os"] = os; x["inc"] += 1; x["cb"] = cbid
             x["pending_at_restart"] = any(e["h"] == h and not e["done"] for e in exp[x["loop"]][pos.get(x["loop"], 0):])
             x["own_cb_restart"] = False
             return 0
@@ -237,7 +238,7 @@ class Mon:
             if x["closing"]: return None
             if op in ("start", "oneshot"):
                 before = (x["sig"], x["inc"])
-                rc = spec_start(h, int(w[2]), op == "oneshot", None)
+                rc = spec_start(h, int(w[2]), op == "oneshot", int(w[3]) & 1 if len(w) > 3 else 0)
                 if in_cb_of == h and x["inc"] != before[1] and x["os"] and x["sig"]:
                     x["own_cb_restart"] = True
                 return rc
@@ -297,11 +298,13 @@ class Mon:
                 s, d = t.split("=")
                 if d != exp_disp(int(s)):
                     self.v("disposition", f"sigaction({s}) is {d}, expected {exp_disp(int(s))} (watchers {[(h, 'os' if H[h]['os'] else 'reg') for h in watchers(int(s))]}) after `{after}`")
-        def on_signal_cb(L, h, sig):
+        def on_signal_cb(L, h, sig, which=None):
             nonlocal ncb
             x = H.get(h)
             if x is None or x["closed"]:
                 self.v("cb-after-close", f"signal callback on closed h{h}"); return
+            if which != f"c{x['cb']}":
+                self.v("wrong-callback", f"h{h}: callback {which} ran, the last successful start installed c{x['cb']}")
             if x["loop"] != L:
                 self.v("wrong-loop", f"h{h} (loop {x['loop']}) called while running loop {L}")
             # the pipe is read in FIFO order: the message behind this callback is the first outstanding one
@@ -383,7 +386,7 @@ class Mon:
                     f = o.split()
                     if f[:2] == ["cb", "signal"]:
                         if phase != "dispatch": self.v("protocol", "signal callback after a close callback in one quiescence")
-                        on_signal_cb(L, int(f[2][1:]), int(f[3]))
+                        on_signal_cb(L, int(f[2][1:]), int(f[3]), f[4] if len(f) > 4 else None)
                     elif f[:2] == ["cb", "close"]:
                         if phase == "dispatch": end_of_dispatch(L); phase = "closing"
                         on_close_cb(L, int(f[2][1:]), None)
@@ -402,7 +405,7 @@ class Mon:
             if mt and w[0] == "init":
                 nl = int(w[1])
                 H = {i: dict(loop=int(l), sig=0, os=False, inc=0, closing=False, closed=False, caught=0,
-                             pending_at_restart=False, own_cb_restart=False, got_cb=-1, ref=True) for i, l in enumerate(w[2:])}
+                             pending_at_restart=False, own_cb_restart=False, got_cb=-1, ref=True, cb=0) for i, l in enumerate(w[2:])}
                 exp = {L: [] for L in range(nl)}
                 mt_runall(cmd)
             elif mt and w[0] in ("start", "oneshot", "stop", "close", "ref", "unref"):
@@ -431,7 +434,7 @@ class Mon:
             elif w[0] == "init":
                 nl = int(w[1])
                 H = {i: dict(loop=int(l), sig=0, os=False, inc=0, closing=False, closed=False, caught=0,
-                             pending_at_restart=False, own_cb_restart=False, got_cb=-1, ref=True) for i, l in enumerate(w[2:])}
+                             pending_at_restart=False, own_cb_restart=False, got_cb=-1, ref=True, cb=0) for i, l in enumerate(w[2:])}
                 exp = {L: [] for L in range(nl)}
                 check_obs(cmd)
             elif w[0] == "script":
@@ -463,7 +466,7 @@ class Mon:
                     f = o.split()
                     if f[:2] == ["cb", "signal"]:
                         if phase != "dispatch": self.v("protocol", "signal callback after the poll phase")
-                        on_signal_cb(L, int(f[2][1:]), int(f[3]))
+                        on_signal_cb(L, int(f[2][1:]), int(f[3]), f[4] if len(f) > 4 else None)
                     elif f[:2] == ["cb", "close"]:
                         if phase == "dispatch": end_of_dispatch(L); phase = "closing"
                         on_close_cb(L, int(f[2][1:]), None)
@@ -587,6 +590,10 @@ WITNESSES = [
      "close h0", "close h1", "close h2", "run 0", "run 1"],
     ["init 1 0 0", "start h0 10", "start h1 10", "runraise 0 10 close:0", "run 0", "run 0"],       # finish_close re-queue
     ["init 1 0", "oneshot h0 10", "stop h0", "start h0 10", "raise 10", "raise 10", "run 0", "raise 10", "run 0"],   # L2 (fixed)
+    # callback identity: a start on an active handle (same signum) only replaces the callback - but it does
+    ["init 1 0", "start h0 10 0", "start h0 10 1", "raise 10", "run 0", "oneshot h0 10 0", "raise 10", "run 0", "raise 10", "run 0",
+     "stop h0", "oneshot h0 12 1", "oneshot h0 12 0", "start h0 12 1", "raise 12", "run 0", "raise 12", "run 0"],
+    ["init 1 0 0", "script 0 start:0:10:1 oneshot:1:10:1", "start h0 10 0", "oneshot h1 10 0", "raise 10", "raise 10", "run 0", "raise 10", "run 0"],
     # unreferenced handles: same deferral of close_cb, loop not kept alive by them
     ["init 1 0 0", "start h0 10", "start h1 10", "unref h0", "runraise 0 10 close:0", "run 0", "run 0"],
     ["init 1 0 0", "start h0 10", "start h1 10", "runraise 0 10 close:0 unref:0", "run 0", "run 0"],
